@@ -1317,7 +1317,7 @@ func TestVerifC07(t *testing.T) {
 	}
 
 	// 3. random histories
-	nh := 120
+	nh := 200
 	if thorough {
 		nh = 1500
 	}
